@@ -26,7 +26,7 @@ MEASURE_LEMMAS = ['ordp_parity', 'xzpartial_full', 'selacq_map', 'selacq_image',
                   'ipowsum_ext', 'symplectic_complete']
 KERNELS = [U + f for f in ('batch_dot', 'random_pair', 'pauli_diagonalize1', 'stabilizer_measure', 'stabilizer_project', 'stabilizer_postselection', 'stabilizer_projection_trace', 'acq', 'ipow', 'p0', 'ps0', 'acq_mat', 'pauli_tokenize', 'pauli_combine', 'pauli_transform',
                            'clifford_rotate', 'clifford_rotate_signless', 'map_to_state', 'state_to_map', 'front',
-                           'pauli_is_onsite', 'stabilizer_expect', 'z2inv', 'z2rank', 'mask', 'stabilizer_entropy', 'random_pauli', 'condense')]
+                           'pauli_is_onsite', 'stabilizer_expect', 'z2inv', 'z2rank', 'mask', 'stabilizer_entropy', 'random_pauli', 'condense', 'pauli_diagonalize2')]
 
 
 def _b():
@@ -180,10 +180,13 @@ def C15(run):
 
 
 def C16(run):
-    run.deductive(keys=[U + 'random_pair', U + 'front', U + 'acq', U + 'random_pauli', ST + 'random_pauli_map'], lemmas=['acq_diff2', 'onsite_flat', 'acq_antisym', 'acq_local'])
+    run.deductive(keys=[U + 'random_pair', U + 'front', U + 'acq', U + 'random_pauli', ST + 'random_pauli_map', U + 'pauli_diagonalize2', U + 'pauli_is_onsite'],
+                  lemmas=['acq_diff2', 'onsite_flat', 'acq_antisym', 'acq_local', 'rot_preserve', 'acq_bilinear', 'acqsum_ext', 'acq_zero'])
     run.bounded_check('c16_random', _b().c16_random, Nmax=3, samples=q(run, 25, 400), n1=q(run, 4800, 96000), n2=q(run, 36000, 576000))
     return 'other', ('deductive (all N, every RNG draw an unconstrained value): random_pair returns a non-identity string and a string anticommuting with it; '
                      'random_pauli / random_pauli_map return a valid block-diagonal Clifford map (canonical commutation relations, Hermitian signs); '
+                     'pauli_diagonalize2 (the step random_clifford is built on) returns generators whose signless rotations, applied in order to BOTH '
+                     'strings, turn any anticommuting pair into (Z, X or Y) on the target qubit; '
                      'bounded: validity of every other sampler; uniformity by chi-square with an 8-sigma threshold on N=1 (24 elements) and N=2 '
                      '(720 symplectic classes); resampling of map-less gates; fairness of sign bits and coins statistically (not a contract)')
 
@@ -199,9 +202,9 @@ def C17(run):
 
 
 def C18(run):
-    run.deductive(keys=[U + 'front', U + 'pauli_is_onsite', U + 'pauli_diagonalize1', U + 'condense', 'pyclifford/circuit.py::clifford_rotation_gate#noqubits',
+    run.deductive(keys=[U + 'front', U + 'pauli_is_onsite', U + 'pauli_diagonalize1', U + 'pauli_diagonalize2', U + 'condense', 'pyclifford/circuit.py::clifford_rotation_gate#noqubits',
                         U + 'mask', PA + 'PauliList.rotate_by#mask'] + LOCAL_GATES[:2],
-                  lemmas=['acq_diff2', 'onsite_flat', 'acq_antisym', 'mask_ext'] + MASK_LEMMAS)
+                  lemmas=['acq_diff2', 'onsite_flat', 'acq_antisym', 'mask_ext', 'acq_local', 'rot_preserve', 'acq_bilinear', 'acqsum_ext', 'acq_zero'] + MASK_LEMMAS)
     run.bounded_check('c18_diagonalize', _b().c18_diagonalize, Nmax=q(run, 3, 4), hams=q(run, 30, 800), big=q(run, 150, 4000))
     return 'other', ('deductive (all N): pauli_diagonalize1 returns generators that rotate the string to Z on the target qubit (each anticommutes with '
                      'the current string); clifford_rotation_gate(G) is the local gate on the support of G whose condensed generator, padded '
